@@ -1032,6 +1032,12 @@ def c02(case, lines):
     if inp is None or outp is None:
         return None
     fp, specs = first_polls(tr), op_specs(tr)
+    # every packet of a C02 case is well formed by construction (tools/mqtt.py encoders): none may be rejected
+    if (case.get("id") or "").startswith("r") and not has(tr, "eof", "rerr", "werr"):
+        for k in sorted(tr.by):
+            for r in tr.by[k]:
+                if r.startswith(("R err Codec", "C err Codec")):
+                    return "accept: the well-formed packet(s) delivered at event %d were rejected (%s)" % (k, r)
     items = [l.split(" ", 3) for l in lines if l.split(" ")[1] == "I"]
     n_item = 0
     subs = sorted([o for o, sp in specs.items() if sp["kind"] == "sub" and o in fp], key=lambda o: fp[o])
